@@ -175,6 +175,7 @@ func c17Directed() []Directed {
 		directedHist("twin-of-only-route", "C17", noneIC, false, hOps(H("/u/{id}", "GET"), H("/u/{name}", "GET"))),
 		directedHist("twin-ignore-flag", "C17", noneIC, false, hOps(H("/u/{id}/x", "GET"), H("/u/{-id}/x", "POST"))),
 		directedHist("non-twin-never-ambiguous", "C17", noneIC, false, hOps(H("/u/{id}/x", "GET"), H("/u/{name}/y", "GET"), H(`/u/{id:\d+}/x`, "GET"))),
+		directedHist("non-utf8-literal-after-regexp", "C17", noneIC, false, hOps(H("/a/x", "GET"), H("/a/{d:\\d+}\xe4", "GET"))),
 		directedHist("regexp-suffix-paren", "C17", noneIC, false, hOps(H("/a/x", "GET"), H(`/a/{id:\d+}(`, "GET")), g("/a/x"), g("/a/7(")),
 	}
 }
